@@ -94,7 +94,19 @@ def _init_unit():
                 return r
             matrices = ObjV('module', {'Relation': FuncV('matrices.Relation', relation)}, name='matrices')
             this = ObjV('Context', {}, name='self')
-            env = {'self': this, 'objects': objs.val, 'properties': props.val, 'bools': bools}
+            # the name collections arrive as arbitrary iterables (possibly one-shot): the ONLY thing the constructor may do with them is
+            # materialise them once with tuple(...) -- everything afterwards works on the tuples
+            def oneshot(ns, nm):
+                o = ObjV('Iterable', {}, name=nm + ' (as given)')
+                used = []
+
+                def tup(p, a, k):
+                    p.oblige('pre@tuple/one-shot-iterable-consumed-once', 'pre@call', BoolVal(not used))
+                    used.append(1)
+                    return ns.val
+                o.fields['__tuple__'] = FuncV('tuple', tup)
+                return o
+            env = {'self': this, 'objects': oneshot(objs, 'objects'), 'properties': oneshot(props, 'properties'), 'bools': bools}
             g = dict(lib.builtins(), matrices=matrices)
             opaque_list = lambda interp, env_, node: ObjV('NameList', {}, name='common')
             valid = And(objs.len >= 1, props.len >= 1, objs.nodup, props.nodup, disjoint, nrows == objs.len,
@@ -270,6 +282,19 @@ def _fromdict_unit():
                 kind, val = outcome
                 if kind == 'raise':
                     path.oblige('post/ill-formed-raises-ValueError', 'post', And(BoolVal(val == 'ValueError'), Not(wellformed)))
+                    # a missing required key: the message names exactly the missing keys, in the order objects, properties, context
+                    exc = path.ghost.get('raised')
+                    msg = (getattr(exc, 'exc_args', None) or [None])[0]
+                    parts = getattr(msg, 'parts', None) or []
+                    lits = ''.join(x[1] for x in parts if x[0] == 'lit')
+                    if 'missing required keys' in lits:
+                        from pyvc.engine import ListV, StrV
+                        lists = [x[1] for x in parts if x[0] == 'fmt' and isinstance(x[1], ListV)]
+                        okm = len(lists) == 1 and all(isinstance(v, StrV) and v.value is not None for v in lists[0].items)
+                        named = [v.value for v in lists[0].items] if okm else []
+                        path.oblige('post/message-names-exactly-the-missing-keys', 'post',
+                                    And(BoolVal(okm and named == [k for k in ('objects', 'properties', 'context') if k in named]),
+                                        *[BoolVal(k in named) == Not(has[k]) for k in ('objects', 'properties', 'context')]))
                     return
                 path.oblige('post/accepted-iff-well-formed', 'post', wellformed)
                 ok = len(created) == 1 and val is created[0]
